@@ -297,3 +297,21 @@ def log(x):
 
 def abs(x):
     return builtins.abs(x)
+
+
+def bincount(a, minlength=0):
+    m = int(max(a)) if len(a.data) else -1          # the length of the result depends on the largest value: concretised (forks)
+    n = builtins.max(m + 1, int(minlength))
+    return Arr([count_nonzero(a == k) for k in range(n)], 'int64')
+
+
+def unique(a):
+    raise ShimUnsupported('np.unique')
+
+
+def arange(*a):
+    return Arr(list(range(*[int(x) for x in a])), 'int')
+
+
+def __getattr__(name):
+    raise ShimUnsupported(f'numpy.{name} is not modelled by the stand-in')
